@@ -27,6 +27,15 @@ mod operation;
 mod statement;
 mod ty;
 
+/// Verification hooks: expose the (otherwise private) lexer to external harnesses.
+#[cfg(any(kani, mamba_verif))]
+pub mod verif_hooks {
+    pub use super::lex::result::{LexErr, LexResult};
+    pub use super::lex::token::{Lex, Token};
+    pub use super::lex::tokenize;
+    pub use super::lex::{verif_as_op_or_id, verif_docstring_pass, verif_into_tokens, VerifState};
+}
+
 impl FromStr for AST {
     type Err = Box<ParseErr>;
 
